@@ -109,6 +109,65 @@ fn build(tier: Tier) -> Vec<Scenario> {
             ));
         }
     }
+    // count windows depend on arrival order: fully sequential configuration only
+    let seq_cfg = JobCfg { layout: Layout::Local(1), batch: BatchMode::fixed(2), capacity: 0 };
+    let seq_progs: Vec<Program> = vec![
+        vec![CountWin],
+        vec![Map, CountWin],
+        vec![Replay(2, vec![CountWin])],
+        vec![Replay(3, vec![Map, CountWin])],
+        vec![Iterate(2, vec![CountWin])],
+        vec![Dup, CountWin, Sink, Fold, Sink],
+    ];
+    for prog in &seq_progs {
+        for input in [vec![1i64, 2, 3, 4, 5], vec![2, 4, 6], vec![1, 3, 5, 7, 2]] {
+            out.push(program_scenario(
+                "C01/seq",
+                prog,
+                &input,
+                SrcKind::Par(vec![0; input.len()]),
+                &seq_cfg,
+                if tier == Tier::Quick { 1 } else { 2 },
+                &ORDERS3,
+                String::new(),
+            ));
+        }
+    }
+    // remote layouts, heterogeneous hosts
+    let remote_progs: Vec<Program> = vec![
+        vec![Map],
+        vec![Shuffle, Map],
+        vec![GbSum],
+        vec![GbFoldAssoc],
+        vec![FoldAssoc],
+        vec![BcastMax],
+        vec![ReplLim2, Map],
+        vec![ReplHost, Map],
+        vec![Dup, Map, Join(0, 0, 0)],
+        vec![Replay(2, vec![Shuffle, Map])],
+        vec![Iterate(2, vec![Shuffle, Filter])],
+    ];
+    let remote_layouts: Vec<Layout> = if tier == Tier::Quick {
+        vec![Layout::Remote(vec![2, 1]), Layout::Remote(vec![1, 2])]
+    } else {
+        vec![Layout::Remote(vec![1, 1]), Layout::Remote(vec![2, 1]), Layout::Remote(vec![1, 2]), Layout::Remote(vec![1, 1, 1]), Layout::Remote(vec![3, 1])]
+    };
+    for layout in remote_layouts {
+        let cores = layout.total_cores() as usize;
+        let cfg = JobCfg { layout, batch: BatchMode::fixed(2), capacity: 0 };
+        for prog in &remote_progs {
+            out.push(program_scenario(
+                "C01/remote",
+                prog,
+                &[1, 2, 3, 4, 5, 6, 7],
+                SrcKind::Par((0..7).map(|i| i % cores).collect()),
+                &cfg,
+                if tier == Tier::Quick { 0 } else { 1 },
+                &ORDERS3[..1],
+                String::new(),
+            ));
+        }
+    }
     out
 }
 
